@@ -27,7 +27,8 @@ def run(ctx):
                 "the real UpdateSender bound to a capturing connection, each behaviour 6 times (bucket order is Go map order); after "
                 "every step the captured UPDATE stream is decoded by the independent reference decoder and folded into the peer's view "
                 "(keyed by prefix and path identifier), which must equal the spec's; also with the sender's periodic goroutine "
-                "running (quiescent points only); IPv4 classic and IPv6 multiprotocol. non-trivial = a RemovePath while something is queued")
+                "running (quiescent points only); IPv4 classic and IPv6 multiprotocol; the three bundles differ in exactly one attribute, "
+                "in turn MED, COMMUNITIES, LARGE_COMMUNITIES, OTC, an unknown transitive attribute, ORIGIN, ATOMIC_AGGREGATE/AGGREGATOR. non-trivial = a RemovePath while something is queued")
 
     def nt(b):
         q = 0
@@ -39,6 +40,10 @@ def run(ctx):
     for ap in (False, True):
         for v6 in (False, True):
             ctx.replay("sender", behs[ap], params={"addpath": ap, "v6": v6, "ibgp": v6}, nontrivial=nt, per_timeout=20)
+        # the bundles differ in exactly one attribute: every attribute that goes on the wire must keep bundles apart
+        for differ in ("comm", "lcomm", "otc", "unknown", "origin", "aggr"):
+            ctx.replay("sender", vf.subsample(ctx.rng, behs[ap], 6000 if big else 500), params={"addpath": ap, "v6": differ in ("otc", "aggr"),
+                       "ibgp": False, "differ": differ}, nontrivial=nt, per_timeout=20)
         tk = [b for b in behs[ap] if any(s["a"] == "Flush" for s in b)]
         ctx.replay("sender", vf.subsample(ctx.rng, tk, 4000 if big else 300), params={"addpath": ap, "v6": False, "ticker": True, "rounds": 2},
                    nontrivial=nt, per_timeout=30)
